@@ -261,9 +261,13 @@ def run(ctx):
         mtu = rng.choice([1500, 1500, 512, 576, 1097, 1098, 1280, 1090, 1093, 1095, 1096])
         kind = i % 4
         if kind == 0:      # hundreds of tiny messages in one tick over a perfect link
-            pcases.append(connlib.gen_two_party(real, rng, "b%d" % i, mtu=mtu, steps=3, loss=0, dup=0, delay=0, replay=0,
-                                                sizes=[0, 0, 0, 1, 1, 2], retry_modes=(0, 0, 1, -1), burst=rng.choice([260, 300, 600]),
-                                                send_rate=0.0, dumps=0.3))
+            # every other burst consists of empty messages only, at an MTU large enough for 255 of them: the datagram is then closed by
+            # the one-byte message count (255), not by its size - the 256th message must stay queued and go out in the next datagram
+            empty = (i // 4) % 2 == 0
+            pcases.append(connlib.gen_two_party(real, rng, "b%d" % i, mtu=rng.choice([1500, 1400, 1339, 1340]) if empty else mtu, steps=3,
+                                                loss=0, dup=0, delay=0, replay=0,
+                                                sizes=[0] if empty else [0, 0, 0, 1, 1, 2], retry_modes=(0, 0, 1, -1),
+                                                burst=rng.choice([256, 260, 300, 600]), send_rate=0.0, dumps=0.3))
         elif kind == 1:    # boundary sizes, perfect link
             pcases.append(connlib.gen_two_party(real, rng, "s%d" % i, mtu=mtu, steps=25, loss=0, dup=0, delay=0, replay=0, dumps=0.2))
         else:              # everything, lossy
@@ -282,10 +286,14 @@ def run(ctx):
             # perfect link + healed tail: nothing may be lost on the way from the queue into datagrams
             sent, delivered = r
             for e, peer in (("a", "b"), ("b", "a")):
-                missing = [d for d in sent.get(e, []) if d not in delivered.get(peer, [])]
+                # as multisets: equal payloads (hundreds of empty messages) are different messages
+                import collections
+                miss = collections.Counter(sent.get(e, [])) - collections.Counter(delivered.get(peer, []))
+                missing = list(miss.elements())
                 if missing:
-                    ctx.failure("queued-message-never-sent", "%d message(s) queued by %s over a perfect link never reached the peer (first: %s)"
-                                % (len(missing), e, missing[0]), {"case": c, "at": len(c) - 2})
+                    ctx.failure("queued-message-never-sent", "%d of %d message(s) queued by %s over a perfect link never reached the peer "
+                                "(first: %s, %d copies short)" % (len(missing), len(sent.get(e, [])), e, missing[0], miss[missing[0]]),
+                                {"case": c, "at": len(c) - 2})
                     return
         for rec in log:
             if rec["op"] == "build" and rec.get("pkt"):
